@@ -1,4 +1,5 @@
 import RosuModel.Lemmas.TaikoPreAll
+import RosuModel.Lemmas.TaikoGradFix
 import RosuModel.Props.C02
 
 /-!
@@ -23,6 +24,13 @@ prefix of difficulty objects whose colour / rhythm data were computed from the w
   truncated map gives the processed objects different colour data (so "difficulty after `n`
   objects" is not the difficulty of the map cut after `n` objects; an observation, both paths of
   the crate agree with each other).
+
+* `taiko_fixed_next_eq_prefix`, `taiko_fixed_len_tracks`: the **proposed repair** of recorded finding
+  #4 (`docs/proposed-fix-taiko-gradual-first-two.patch`, modelled in `Model/TaikoGradFix.lean`, not
+  part of /repo) satisfies the `next` / value-count / `len` clauses of C02 for **every** object
+  list — no "first two objects are hits" and no "at least three objects" hypothesis; `len()` never
+  underflows, also after exhaustion.  (The final-value clause still needs "the last object is a
+  hit": finding #4b is a disagreement inside the one-shot path and is not touched.)
 
 Tie: `TKPRE` lines (the real structure for several `passed_objects` values is compared bit for bit
 with the model's, which ignores `take`), oracle `taiko-pre-depends-on-take` and
@@ -109,6 +117,65 @@ theorem colour_data_not_prefix_stable :
     let full : List (Obj Int) := [⟨0, .centre⟩, ⟨100, .centre⟩, ⟨200, .centre⟩, ⟨300, .rim⟩, ⟨400, .rim⟩]
     ((preprocess intArith 1 full).bind (·.colour[1]?)) = some (1, 0, 0, 0) ∧
     ((preprocess intArith 1 (full.take 4)).bind (·.colour[1]?)) = some (0, 0, 1, 0) := by
+  decide
+
+/-! ## The proposed repair of `TaikoGradualDifficulty::next` (finding #4) -/
+
+/-- **Repaired machine, every object list**: the first `H` calls of `next` (`H` = number of hits)
+return exactly the one-shot results for `passed_objects = 1, …, H`, the next call returns `None`, and
+`len()` announces `H`. -/
+theorem taiko_fixed_next_eq_prefix (sk : Skills S) (objs : List Bool) :
+    let H := hitsIn objs
+    ((taikoMachineFixed sk objs).nexts (taikoNew sk objs) H).1 =
+      (List.range H).map (fun d => Res.some (taikoOneShot sk objs (d + 1))) ∧
+    ((taikoMachineFixed sk objs).next ((taikoMachineFixed sk objs).nexts (taikoNew sk objs) H).2).1 = .none ∧
+    (taikoMachineFixed sk objs).len (taikoNew sk objs) = some H := by
+  intro H
+  obtain ⟨hv, hc⟩ := taikoFixed_nexts_spec sk objs H (taikoNew sk objs) 0 (fixCanon_new sk objs) (by omega)
+  refine ⟨?_, ?_, ?_⟩
+  · rw [hv]
+    apply List.map_congr_left
+    intro d hd
+    have hdlt : d < H := by simpa using hd
+    simp only [Nat.zero_add]
+    rw [taikoOneShot_general sk objs (d + 1) (by omega) (by omega)]
+  · simp only [Nat.zero_add] at hc
+    have := ((taikoNextFixed_spec sk objs _ H hc).2 rfl).1
+    show optToRes (taikoNextFixed sk objs _).1 = _
+    rw [this]; rfl
+  · simp [taikoMachineFixed, taikoLen, taikoNew, Gradual.csub, hitsIn, H]
+
+/-- **Repaired machine**: `len()` never underflows and always equals the number of values still to
+come — after `k ≤ H` values it is `H - k`, and after the exhausted call it is `0`. -/
+theorem taiko_fixed_len_tracks (sk : Skills S) (objs : List Bool) (k : Nat) (hk : k ≤ hitsIn objs) :
+    (taikoMachineFixed sk objs).len ((taikoMachineFixed sk objs).nexts (taikoNew sk objs) k).2 =
+      some (hitsIn objs - k) ∧
+    (taikoMachineFixed sk objs).len
+      ((taikoMachineFixed sk objs).next
+        ((taikoMachineFixed sk objs).nexts (taikoNew sk objs) (hitsIn objs)).2).2 = some 0 := by
+  obtain ⟨_, hc⟩ := taikoFixed_nexts_spec sk objs k (taikoNew sk objs) 0 (fixCanon_new sk objs) (by omega)
+  obtain ⟨_, hcH⟩ := taikoFixed_nexts_spec sk objs (hitsIn objs) (taikoNew sk objs) 0
+    (fixCanon_new sk objs) (by omega)
+  simp only [Nat.zero_add] at hc hcH
+  refine ⟨?_, ?_⟩
+  · show Gradual.csub (objs.filter id).length _ = _
+    rw [hc.idx]
+    simp [Gradual.csub, hitsIn] at hk ⊢
+    exact hk
+  · have := ((taikoNextFixed_spec sk objs _ _ hcH).2 rfl).2
+    show Gradual.csub (objs.filter id).length (taikoNextFixed sk objs _).2.idx = _
+    rw [this]
+    simp [Gradual.csub, hitsIn]
+
+/-- The inputs on which the unrepaired machine fails (`C02.taiko_first_nonhit_fails`,
+`taiko_short_map_fails`) evaluated on the repaired one. -/
+example :
+    ((taikoMachineFixed unitSkills' [true, false, true, true]).nexts
+        (taikoNew unitSkills' [true, false, true, true]) 3).1 =
+      [1, 2, 3].map (fun i => Res.some (taikoOneShot unitSkills' [true, false, true, true] i)) ∧
+    ((taikoMachineFixed unitSkills' [true, true]).nexts (taikoNew unitSkills' [true, true]) 3).1 =
+      [Res.some (taikoOneShot unitSkills' [true, true] 1), Res.some (taikoOneShot unitSkills' [true, true] 2),
+       Res.none] := by
   decide
 
 end Rosu.C02c
